@@ -1,6 +1,9 @@
 #include <occa/internal/modes/serial/device.hpp>
 #include <occa/internal/modes/serial/buffer.hpp>
 #include <occa/internal/modes/serial/memory.hpp>
+#ifdef LIBOCCA_OCCA_VERIF
+#include <occa/internal/verif.hpp>
+#endif
 
 namespace occa {
 
@@ -11,10 +14,16 @@ namespace occa {
     dtype_(&dtype::byte),
     size(size_),
     offset(offset_) {
+#ifdef LIBOCCA_OCCA_VERIF
+    verif::liveAdd(verif::clsMemory, 1);
+#endif
     modeBuffer->addModeMemoryRef(this);
   }
 
   modeMemory_t::~modeMemory_t() {
+#ifdef LIBOCCA_OCCA_VERIF
+    verif::liveAdd(verif::clsMemory, -1);
+#endif
     // NULL all wrappers
     while (memoryRing.head) {
       memory *mem = (memory*) memoryRing.head;
